@@ -296,7 +296,7 @@ theorem c20_main_rejects (sig : List (Param V)) (d : V) (code : Nat)
     (hs : setup (mainFields sig) = .ok) : mainRun sig (.exit code) d [] [] = .exit code := by
   simp [mainRun, hs]
 
-/-! ### `only_keep_action_args` and the D4 defect -/
+/-! ### `only_keep_action_args` and set-up for all supported types -/
 
 /-- custom action classes: nothing is filtered -/
 theorem c20_keep_custom (keys ctor : List Str) :
@@ -339,76 +339,70 @@ theorem mem_dedup (l : List Str) (x : Str) : x ∈ dedup l ↔ x ∈ l := by
         · exact Or.inl hxy
         · exact Or.inr ⟨h, by simpa using hxy⟩
 
-/-- the field takes the `BooleanOptionalAction` branch of `get_arg_options` -/
-def boolAction (p : Param V) : Bool := (autoKeys (mainField p)).2
-
-/-- the named, decidable exclusion for D4 -/
-def NoBoolAction (sig : List (Param V)) : Prop := ∀ p ∈ sig, boolAction p = false
-
-instance (sig : List (Param V)) : Decidable (NoBoolAction sig) := by
-  unfold NoBoolAction; exact List.decidableBAll _ _
-
-/-- **Full statement (all supported types).** `main` adds no set-up failure of its own: the class it
-    synthesises can be added to a parser exactly when the equivalent hand-written dataclass can. -/
-def FullAllTypes : Prop :=
-  ∀ sig : List (Param Nat), setup (mainFields sig) = setup (plainFields sig)
-
 instance : Inhabited (Param Nat) := ⟨{ name := [], kind := .posOrKw, ann := none, dflt := none }⟩
 
-/-- D4: `@main def f(a: int = 1, flag: bool = False)` -/
+/-- D4 regression input: `@main def f(a: int = 1, flag: bool = False)` -/
 def d4Sig : List (Param Nat) :=
   [ { name := S "a", kind := .posOrKw, ann := some .plain, dflt := some (.value 1 false) },
     { name := S "flag", kind := .posOrKw, ann := some .bool, dflt := some (.value 0 false) } ]
 
-/-- **Witness (D4).** The full statement is false for the code as it is: the equivalent dataclass
-    sets up fine, `main` raises TypeError because `name=` reaches `BooleanOptionalAction`. -/
-theorem c20_all_types_witness : ¬ FullAllTypes := by
-  intro h
-  have := h d4Sig
-  revert this
-  decide
-
-theorem c20_d4_outcome : mainRun d4Sig (.ok []) 0 [] [] = .raise (S "TypeError") := by decide
-
-/-- the offending key really is `name`, and it is exactly what a stock action would have dropped -/
-theorem c20_d4_name_reaches_action :
-    S "name" ∈ (argOptionKeys (mainField (d4Sig.getD 1 default))).1 ∧
-    S "name" ∉ (argOptionKeys (mainField (d4Sig.getD 0 default))).1 := by decide
-
 theorem autoKeys_plain (p : Param V) : autoKeys (plainField p) = autoKeys (mainField p) := rfl
 
-theorem addArgument_main_eq_plain (p : Param V) (h : boolAction p = false) :
+/-- the only custom key `main` adds (`help`) is accepted by every action constructor involved and is
+    not `required` -/
+theorem contains_required_help (auto : List Str) :
+    (dedup (auto ++ [S "help"])).contains (S "required") = (dedup (auto ++ [])).contains (S "required") := by
+  rw [Bool.eq_iff_iff]
+  simp only [List.contains_eq_mem, decide_eq_true_eq, mem_dedup, List.mem_append, List.mem_singleton,
+    List.not_mem_nil, or_false]
+  constructor
+  · rintro (h | h)
+    · exact h
+    · exact absurd h (by decide)
+  · intro h; exact Or.inl h
+
+theorem filter_contains_required_help (auto : List Str) (ctor : List Str) (hc : S "required" ∈ ctor) :
+    ((dedup (auto ++ [S "help"])).filter (fun k => ctor.contains k)).contains (S "required")
+      = ((dedup (auto ++ [])).filter (fun k => ctor.contains k)).contains (S "required") := by
+  rw [Bool.eq_iff_iff]
+  simp only [List.contains_eq_mem, decide_eq_true_eq, List.mem_filter, mem_dedup, List.mem_append,
+    List.mem_singleton, List.not_mem_nil, or_false, hc, and_true]
+  constructor
+  · rintro (h | h)
+    · exact h
+    · exact absurd h (by decide)
+  · intro h; exact Or.inl h
+
+theorem any_unknown_help (auto : List Str) :
+    (dedup (auto ++ [S "help"])).any (fun k => !(boolActionCtor.contains k) && !(k == S "action"))
+      = (dedup (auto ++ [])).any (fun k => !(boolActionCtor.contains k) && !(k == S "action")) := by
+  rw [Bool.eq_iff_iff]
+  simp only [List.any_eq_true, mem_dedup, List.mem_append, List.mem_singleton, List.not_mem_nil, or_false]
+  constructor
+  · rintro ⟨k, hk | hk, hb⟩
+    · exact ⟨k, hk, hb⟩
+    · subst hk; exact absurd hb (by decide)
+  · rintro ⟨k, hk, hb⟩; exact ⟨k, Or.inl hk, hb⟩
+
+/-- per field: the synthesised field and the hand-written one meet the same fate in `add_argument`
+    — for every type class (including `bool`), kind and default -/
+theorem addArgument_main_eq_plain (p : Param V) :
     addArgument (mainField p) = addArgument (plainField p) := by
-  have hb : (autoKeys (mainField p)).2 = false := h
-  have hreq : ∀ (custom : List Str), S "required" ∉ custom →
-      ((dedup ((autoKeys (mainField p)).1 ++ custom)).filter
-          (fun k => ((["self", "option_strings", "dest", "nargs", "const", "default", "type",
-            "choices", "required", "help", "metavar"].map S) ++ [S "action"]).contains k)).contains (S "required")
-        = (autoKeys (mainField p)).1.contains (S "required") := by
-    intro custom hc
-    rw [Bool.eq_iff_iff]
-    simp only [List.contains_eq_mem, decide_eq_true_eq, List.mem_filter, mem_dedup, List.mem_append]
-    constructor
-    · rintro ⟨h | h, _⟩
-      · exact h
-      · exact absurd h hc
-    · intro h; exact ⟨Or.inl h, by decide⟩
-  have hm := hreq [S "name", S "help"] (by decide)
-  have hp := hreq [] (by simp)
   unfold addArgument argOptionKeys
   rw [autoKeys_plain]
   have hty : (plainField p).ty = (mainField p).ty := rfl
   have hpos : (plainField p).positional = (mainField p).positional := rfl
-  have hcm : (mainField p).custom = [S "name", S "help"] := rfl
+  have hcm : (mainField p).custom = [S "help"] := rfl
   have hcp : (plainField p).custom = [] := rfl
   rw [hty, hpos, hcm, hcp]
   rcases hak : autoKeys (mainField p) with ⟨auto, isBool⟩
-  rw [hak] at hb hm hp
-  simp only at hb
-  subst hb
-  simp only [Bool.false_eq_true, if_false, onlyKeepActionArgs, stockCtorArgs]
-  simp only at hm hp
-  rw [hm, hp]
+  cases isBool with
+  | false =>
+    simp only [Bool.false_eq_true, if_false, onlyKeepActionArgs, stockCtorArgs]
+    rw [filter_contains_required_help auto _ (by decide)]
+  | true =>
+    simp only [if_true, onlyKeepActionArgs, stockCtorArgs]
+    rw [contains_required_help, any_unknown_help]
 
 theorem setup_eq_all (l : List (Field V)) :
     setup l = if l.all (fun f => addArgument f == .ok) then .ok else .typeError := by
@@ -436,10 +430,11 @@ theorem all_partition {α} (key P : α → Bool) (l : List α) :
     · rw [Bool.and_assoc]
     · rw [Bool.and_left_comm]
 
-/-- **Partial theorem.** Outside the named exclusion (no parameter whose field takes the
-    `BooleanOptionalAction` branch) `main`'s synthesised class sets up exactly when the equivalent
-    dataclass does — for every other supported type, kind and default, any number of parameters. -/
-theorem c20_all_types_partial (sig : List (Param V)) (h : NoBoolAction sig) :
+/-- **All supported types (full statement; D4 repaired in a47a1e0).** `main` adds no set-up
+    failure of its own: for *every* signature — any number of parameters, every type class including
+    `bool`, every kind and default — the class it synthesises can be added to a parser exactly when
+    the equivalent hand-written dataclass can. -/
+theorem c20_all_types (sig : List (Param V)) :
     setup (mainFields sig) = setup (plainFields sig) := by
   rw [setup_eq_all, setup_eq_all]
   unfold mainFields plainFields
@@ -447,17 +442,23 @@ theorem c20_all_types_partial (sig : List (Param V)) (h : NoBoolAction sig) :
     List.all_map, List.all_map]
   have : ∀ p ∈ sig, ((fun f => addArgument f == AddOutcome.ok) ∘ mainField) p
       = ((fun f => addArgument f == AddOutcome.ok) ∘ plainField) p := by
-    intro p hp
-    simp only [Function.comp, addArgument_main_eq_plain p (h p hp)]
+    intro p _
+    simp only [Function.comp, addArgument_main_eq_plain p]
   rw [all_congr_mem _ _ _ this]
 
-/-- non-vacuity: a signature with every non-bool class satisfies the exclusion, and a `bool`
-    parameter whose default is `None` does too (it takes the "default is None" branch) -/
-example : NoBoolAction exampleSig := by decide
-def boolNoneSig : List (Param Nat) :=
-  [ { name := S "b", kind := .posOrKw, ann := some .bool, dflt := some (.value 0 true) } ]
-example : NoBoolAction boolNoneSig := by decide
-example : ¬ NoBoolAction d4Sig := by decide
+/-- regression (D4): `@main def f(a: int = 1, flag: bool = False)` sets up and is called with the
+    parsed values; `name` no longer reaches `BooleanOptionalAction`, `help` does and is accepted -/
+example : setup (mainFields d4Sig) = .ok := by decide
+example : mainRun d4Sig (.ok [(S "a", 1), (S "flag", 0)]) 7 [] []
+    = .call { args := [], kwargs := [(S "a", 1), (S "flag", 0)] } := by decide
+example : S "name" ∉ (argOptionKeys (mainField (d4Sig.getD 1 default))).1 ∧
+    S "help" ∈ (argOptionKeys (mainField (d4Sig.getD 1 default))).1 := by decide
+/-- the remaining, shared limitation: a positional-only Optional parameter is rejected by argparse
+    (`required` for a positional) for the synthesised class and the hand-written one alike -/
+def posOptionalSig : List (Param Nat) :=
+  [ { name := S "o", kind := .posOnly, ann := some .optional, dflt := none } ]
+example : setup (mainFields posOptionalSig) = .typeError ∧ setup (plainFields posOptionalSig) = .typeError := by
+  decide
 
 /-! ### the cache of `config_for` -/
 
